@@ -125,7 +125,8 @@ def gen_case(rnd):
     mode = rnd.choice(["Center Distance", "IoU 2D", "IoU 3D", "Plane Distance"])
     radii = None
     if targets and rnd.random() < 0.6:
-        radii = [rnd.choice([0.05, 0.3, 0.6] if mode.startswith("IoU") else [1.0, 3.0, 8.0]) for _ in targets]
+        # includes the degenerate radius 0 (nothing is closer than 0; every positive IoU beats 0)
+        radii = [rnd.choice([0.0, 0.05, 0.3, 0.6] if mode.startswith("IoU") else [0.0, 1.0, 3.0, 8.0]) for _ in targets]
     return dict(task="fp_validation" if fpv else rnd.choice(["detection", "tracking"]), est=est, gt=gt, targets=targets,
                 policy=rnd.choice(["DEFAULT", "ALLOW_UNKNOWN", "ALLOW_ANY"]), mode=mode, radii=radii)
 
